@@ -217,7 +217,7 @@ func runProperty(p *Property, tier, repo, only string) int {
 			o := &rep.Obs[i]
 			if o.Status == "violation" {
 				for _, k := range known {
-					if k.Prop == p.ID && k.Key == o.ID() {
+					if (k.Prop == p.ID || p.ID == "ALL") && k.Key == o.ID() {
 						o.Status = "known"
 						o.Note = k.What
 					}
